@@ -16,6 +16,32 @@ func (c13) step(t []string) string {
 		var tr [][]int
 		slices.ChunkFunc(parseInts(t[1]), atoi(t[2]), func(c []int) { tr = append(tr, append([]int(nil), c...)) })
 		return fmtIntss(tr)
+	case "chunkunits":
+		// chunkunits <n> <size> <variant>: a slice of n zero-size elements (n may be astronomically large: no memory is touched); the result is
+		// the list of piece LENGTHS.  variant 0 = Chunk, 1 = ChunkFunc, 2 = WindowedFunc (number of windows and the length of the first / last)
+		need(t, 4)
+		n, size := atoi(t[1]), atoi(t[2])
+		units := make([]struct{}, n)
+		var lens []int
+		switch atoi(t[3]) {
+		case 0:
+			for _, c := range slices.Chunk(units, size) {
+				lens = append(lens, len(c))
+			}
+		case 1:
+			slices.ChunkFunc(units, size, func(c []struct{}) { lens = append(lens, len(c)) })
+		default:
+			cnt, first, last := 0, -1, -1
+			slices.WindowedFunc(units, size, func(c []struct{}) {
+				if cnt == 0 {
+					first = len(c)
+				}
+				last = len(c)
+				cnt++
+			})
+			lens = []int{cnt, first, last}
+		}
+		return fmtInts(lens)
 	case "windowed":
 		need(t, 3)
 		return fmtIntss(slices.Windowed(parseInts(t[1]), atoi(t[2])))
